@@ -49,6 +49,31 @@ NEEDS = {
     'C19-2': ('C19', 'a _thread thread that called threading.current_thread() (stale _DummyThread entry) and finished before the test ends: reported although finished'),
     'C20-1': ('C20', 'nodes transformed by id() (the default) and a one-node component with a self-loop: neighbours looked up with a doubly transformed key, self-loop component dropped'),
     'C20-2': ('C20', 'a multi-node component completed first, then a later-visited node with an edge into one of its non-root members: only the root is unstacked, components lost or merged'),
+    # ---- round 2 (three per property; the agents were also told which triggers round 1 had used)
+    'C01-3': ('C01', 'a layer reaching the same not-yet-set-up base by two paths (diamond, or Top(Mid, Base) with Mid(Base)): the set-up plan is computed before anything is set up, the base is set up twice'),
+    'C01-4': ('C01', 'a tearDown raising NotImplementedError mid-run while further unneeded layers (its base / a sibling base) follow in the same sweep and a layer is still to run: they are forgotten without tear-down'),
+    'C01-5': ('C01', 'a layer reaching a base by two paths plus a further unrelated base whose name sorts before the shared one: the shared base is torn down before a layer derived from it'),
+    'C02-3': ('C02', 'a test module that raises SystemExit (sys.exit(0)) at import time or from test_suite(): not recorded as an import failure, the runner exits 0'),
+    'C02-4': ('C02', '--repeat N>1 and a test that goes wrong in an earlier iteration but not in the last: only the last iteration counts towards the verdict'),
+    'C02-5': ('C02', 'one tear-down sweep in which a layer tearDown raises a real exception and a base torn down later raises NotImplementedError, with a layer still to run: the collected tear-down error is lost'),
+    'C03-3': ('C03', 'a test / nested suite with its own lower level inside a TestSuite whose level is above --at-level: pruned with the suite'),
+    'C03-4': ('C03', '>=2 filters of one kind, an earlier one with a capture group and a later one with a numeric back-reference: joined into one alternation, the later filter selects nothing'),
+    'C03-5': ('C03', 'relative --path, a layer that cannot be torn down and an earlier in-process test that os.chdir()s: the resumed subprocess starts in the wrong directory and runs a different / no set of tests'),
+    'C05-3': ('C05', 'self.skipTest() inside a with self.subTest() block in a layer with per-test hooks: the skip is reported for the _SubTest object, testSetUp runs a second time'),
+    'C05-4': ('C05', '-D together with a decorator-skipped test in a layer with per-test hooks (no failure needed): addSkip fallback calls testSetUp, stopTest never runs'),
+    'C05-5': ('C05', 'two or more decorator-skipped tests in a row in one layer: _test_state survives stopTest, the second one gets testTearDown without testSetUp'),
+    'C06-3': ('C06', '--shuffle-seed with -j N and >=2 layers: a child skips the earlier layers when shuffling, its order (and order-dependent outcomes) differ from the sequential run'),
+    'C06-4': ('C06', 'a layer in a subprocess with >=1 failure and >=1 error: the child lists errors before failures, names are cross-assigned'),
+    'C06-5': ('C06', 'output on the child\'s fd 2 during interpreter shutdown: every line after the failure names is taken as an error name (phantom errors with -j N only)'),
+    'C08-3': ('C08', '>=3 patterns where two of one polarity are separated by one of the other (-t a -t !b -t c): itertools.groupby overwrites the earlier run'),
+    'C08-4': ('C08', 'a -t option combined with the positional MODULE TEST filter pair: the positional test filter is dropped'),
+    'C08-5': ('C08', 'a --layer pattern that is exactly a layer\'s full dotted name plus a !-pattern matching it: the exact-name shortcut bypasses the veto'),
+    'C09-3': ('C09', 'an explicit -a 0 / --at-level=-1 without --all: options.all set but the level test no longer treats <=0 as "all": nothing selected'),
+    'C09-4': ('C09', '-u together with a selection that contains only layered tests: --unit is only consulted when a unit test was found, layered tests run'),
+    'C09-5': ('C09', 'a suite declaring layer Y that contains a case/suite declaring layer X, and layer X runs in a resumed subprocess (-j N / after NIE): the child skips the whole suite'),
+    'C10-3': ('C10', 'layers in subprocesses and two selected layers whose dotted names differ only where one has a dot (app.layers.DB / app_layers.DB): unescaped resume-layer regex, a layer runs twice'),
+    'C10-4': ('C10', '-j N with --progress and a later layer producing output before an earlier one: immediate collector bypasses the in-order display'),
+    'C10-5': ('C10', 'two selected layers whose names differ only by leading zeros (Shard01 / Shard1) met in a different discovery order: natural sort key ties'),
 }
 
 
